@@ -722,12 +722,17 @@ def _get_rotation_and_strain(
         return np.zeros((3, 3)), 0.0
     if phase == MineralPhase.olivine:
         slip_indices = np.argsort(np.abs(slip_invariants / crss))
-        slip_rates = _get_slip_rates_olivine(
-            slip_invariants,
-            slip_indices,
-            crss,
-            deformation_exponent,
-        )
+        if slip_invariants[slip_indices[-1]] / crss[slip_indices[-1]] == 0:
+            # Shear is only resolved on a slip system with infinite CRSS:
+            # no slip system is active, the grain rotates passively.
+            slip_rates = np.zeros(4)
+        else:
+            slip_rates = _get_slip_rates_olivine(
+                slip_invariants,
+                slip_indices,
+                crss,
+                deformation_exponent,
+            )
     elif phase == MineralPhase.enstatite:
         slip_indices = np.argsort(1 / crss)
         slip_rates = np.zeros(4)
